@@ -7,6 +7,7 @@
 //   <L> v<k> = <factory> args...             build a node (see `build`)
 //   <L> set <what> v<k> args...              mutate a node under construction (loc / spec / init / add / ...)
 //   <L> junk <n>                             unrelated allocations (n of them) in that lexicon
+//   <L> scramble <seed>                      scramble the allocator's free lists (addresses no longer follow allocation order)
 //   dump <L> v<k>                            heap lines `node ...` then `enddump` (ids n<k> by first appearance)
 //   dumpeq <L> v<k> <L'> v<j>                `dumpeq=1|0`   (are the two dumps identical text?)
 //   print <L> v<k> <route> loc=<0|1> base=<8|10|16> [fill=<n>] [width=<n>]
@@ -800,6 +801,23 @@ static void junk(World& w, unsigned n, unsigned salt)
    }
 }
 
+// Scramble the allocator's free lists: blocks of every small size class are allocated and released in a pseudo-random
+// order, so that the next allocations of a class come back in an address order unrelated to the allocation order.
+// (Effective when freed blocks are reused at once: glibc, or ASan with quarantine_size_mb=0.)
+static void scramble(unsigned seed)
+{
+   std::vector<void*> blocks;
+   for (std::size_t size = 16; size <= 1024; size += 16)
+      for (int k = 0; k < 48; ++k)
+         blocks.push_back(::operator new(size));
+   unsigned x = seed * 2654435761u + 12345u;
+   for (std::size_t i = blocks.size(); i > 1; --i) {
+      x = x * 1664525u + 1013904223u;
+      std::swap(blocks[i - 1], blocks[(x >> 8) % i]);
+   }
+   for (auto p : blocks) ::operator delete(p);
+}
+
 // ------------------------------------------------------------------------------------------------ sweep (C18)
 struct Item { std::string name; const Expr* e; };
 
@@ -845,6 +863,7 @@ static std::vector<Item> sweep_items(World& w)
    add("Requires", lex.make_requires(G, Mapping_level{0})); add("Phantom", lex.make_phantom()); add("Eclipsis", lex.make_eclipsis(I));
    add("Symbol", &T); add("Nullptr", &lex.nullptr_value());
    add("Asm", lex.make_asm(lex.get_string(u8"nop"))); add("Static_assert", lex.make_static_assert(T, {}));
+   add("Asm_expr", lex.make_asm_expr(lex.get_string(u8"nop"))); add("Static_assert_expr", lex.make_static_assert_expr(T));
    { auto* p = lex.make_mapping(G, Mapping_level{0}); add("Parameter_list", &p->parameters()); }
    { auto* ps = lex.make_elementary_substitution(*lex.make_mapping(G, Mapping_level{0})->param(lex.get_identifier(u8"q"), I), a); add("Instantiation", lex.make_instantiation(a, *ps)); }
    add("Scope", unit.global_scope());
@@ -998,6 +1017,7 @@ int main(int argc, char** argv)
             auto& w = *worlds.at(ws.at(0));
             Builder b(w);
             if (ws.at(1) == "junk") { junk(w, std::stoul(ws.at(2)), ++salt); std::cout << "ok\n"; }
+            else if (ws.at(1) == "scramble") { scramble(std::stoul(ws.at(2))); std::cout << "ok\n"; }
             else if (ws.at(1) == "set") {
                b.a.assign(ws.begin() + 3, ws.end());
                b.set(ws.at(2));
